@@ -758,7 +758,6 @@ func (s *Server) netServe() error {
 								client.in = InputStream{}
 								client.pr.rd = rwc
 								client.pr.wr = rwc
-								client.closer = nil
 								wg.Done()
 								detached = true
 								log.Debugf("Detached connection: %s", client.remoteAddr)
